@@ -8,28 +8,40 @@ run-time contracts on the real code, executed natively):
 
   C18/exhaustive  all sequences of rewiring operations (within the preconditions the
                   quantifier states) to a bounded depth over 3 units (fixed / variable /
-                  mixed port lists) and 5 streams, from several constructed initial wirings.
+                  mixed port lists) and 5 streams, from 5 constructed initial wirings.
   C18/random      seeded pseudo-random sequences of length ~50 over 6 units and 10 streams.
 
 After *every* operation the representation invariant WF is evaluated (DESIGN 4/C18):
 
   I1  every entry of u.ins has `.sink is u` (placeholders included); mirror: u.outs / .source
-  I2  every real stream with `.sink is u` is listed in u.ins;            mirror
-  I3  no entry occurs twice in a port list (with I1: no stream occupies two inlet ports
-      or two outlet ports)
-  I4  fixed-size lists have length `_size`; every entry is a real stream or a placeholder,
-      placeholders are falsy ("report no material"); a placeholder occupies at most one
-      inlet port and at most one outlet port.
+  I2  every real stream with `.sink is u` is listed in u.ins; the same for every placeholder
+      that is currently listed in some port;                              mirror
+  I3  no entry occurs twice in a port list (with I1: no stream or placeholder occupies two
+      inlet ports or two outlet ports)
+  I4  fixed-size lists have length `_size`; every entry is a real stream or a placeholder and
+      placeholders are falsy ("report no material").
 
-plus the local effect of the operation (which port holds what, list length) and a frame
-clause (the other side of every connection, untouched port lists and untouched streams are
-unchanged; a list that loses a stream to another list gets a placeholder in that port).
+plus the local effect of the operation (which port holds what, list length, return value), a
+frame clause (the other side of every connection, untouched port lists and uninvolved streams
+are unchanged; a list that loses a stream to another list gets a placeholder in that port) and
+"returns normally" (only the documented refusals -- RuntimeError for growing a fixed-size list,
+ValueError of unit.insert for an undefined port -- are accepted as exceptions).
 
-All operations are the REAL thermosteam.network functions; the harness only chooses the
-operands, saves/restores object-graph states between branches of the enumeration
-(every violation is re-executed from the constructed initial state by the real
-operations alone before it is reported) and evaluates the clauses.
+All operations are the REAL thermosteam.network functions.  The harness only chooses the
+operands (so that each call is within the stated preconditions), saves/restores object-graph
+states between the branches of the enumeration (every WF violation is re-executed from the
+constructed initial state by the real operations alone before it is reported) and evaluates
+the clauses.  One obligation = (operation kind, clause) per configuration: it holds iff the
+clause held after every execution of that kind in the configuration.
+
+Alphabets: 'mini' = the named operations themselves (item/slice assignment of one stream, append,
+insert, pop, remove, clear, empty, stream.disconnect*, unit - unit, unit.disconnect/take_place_of/
+replace_with/insert); 'core' = mini + replace, pipe notation, extend, reverse, pairs in slices,
+Connection.reconnect, placeholders of both sides as operands; 'full' = core + negative indices,
+partial slices, every index for pipes, ** pipes, InletPort/OutletPort.set_stream, same-port
+re-assignment, unit.insert / unit.disconnect argument variants.
 """
+import gc
 import os
 import random
 import thermosteam as tmo
@@ -61,6 +73,9 @@ _thermo_ready = False
 def _ensure_thermo():
     global _thermo_ready
     if not _thermo_ready:
+        # the worker is a fork of the checker: keep the garbage collector away from everything inherited from it
+        # (solver objects of the symbolic engine are never needed here); the walks below allocate a lot
+        gc.freeze()
         tmo.settings.set_thermo([])
         _thermo_ready = True
 
@@ -1009,7 +1024,7 @@ def exhaustive_configs(tier):
         plan = [('bare', THOROUGH_DEPTH, 'mini', 64), ('line', THOROUGH_DEPTH, 'mini', 128)]
         plan += [('bare', 3, 'core', 8), ('line', 3, 'core', 24), ('steal', 3, 'core', 32), ('single', 3, 'core', 32),
                  ('default', 3, 'core', 48)]
-        plan += [(init, 2, 'full', 4) for init in INITS] + [('bare', 3, 'full', 32), ('line', 3, 'full', 64)]
+        plan += [(init, 2, 'full', 4) for init in INITS] + [('bare', 3, 'full', 32)]
     for init, depth, alphabet, chunks in plan:
         for k in range(chunks):
             out.append({'name': f'init={init};depth={depth};alphabet={alphabet};chunk={k}/{chunks}',
@@ -1053,12 +1068,13 @@ def check_construction(w, U):
 
 
 @group('C18/exhaustive', configs=exhaustive_configs, functions=FUNCTIONS, mode='B',
-       notes='every sequence of rewiring operations within the stated preconditions, to depth 3 (quick) / 4 (thorough) '
-             'with the core alphabet and depth 2 / 3 with the full alphabet (negative indices, partial slices, port '
-             'objects, ** pipes, same-port re-assignment, unit.insert/disconnect argument variants), over 3 units '
-             '(fixed / variable / mixed port lists) and 5 streams (plus the streams the constructors create), from 5 '
-             'constructed initial wirings; equal object-graph states are expanded once, completely free streams are '
-             'interchangeable; WF + local effect + frame evaluated after every operation')
+       notes='every sequence of rewiring operations within the stated preconditions over 3 units (fixed / variable / '
+             'mixed port lists) and 5 streams (plus the streams the constructors create) from 5 constructed initial '
+             'wirings; quick: depth 3 (core alphabet) from the unconnected and the fully connected wiring, depth 2 from '
+             'the other three, depth 2 with the full alphabet; thorough: depth 4 (mini alphabet) from the same two '
+             'wirings, depth 3 (core) from all five, depth 2 (full) from all five and depth 3 (full) from the unconnected one. Equal object-graph states are expanded '
+             'once per remaining depth (the code reads nothing but the graph); completely free streams are '
+             'interchangeable. WF + local effect + frame + returns-normally evaluated after every operation')
 def exhaustive(w, cfg):
     init = cfg['init']; depth = cfg['depth']; full = cfg['alphabet']
     U = Universe(init)
